@@ -38,12 +38,19 @@ GENS = [
     ("jempty", "{ZS}", "{S10}", "<<JEmpty, JMsgs3 \\cup JRej>>", 2, ("quick", "thorough")),
     # DS / CDS / CDNSKEY / DNSKEY as ordinary data of an unsigned zone, in the zone file (dump) and by update
     ("jsec", "{ZD}", "{S10}", "<<JSec1, JSec1>>", 2, ("quick", "thorough")),
+    # a zone file with an out-of-zone owner (glue): dumped, then read back at every restart
+    ("jglue", "{ZG}", "{S10}", "<<JMsgs1 \\cup JMsgs3>>", 1, ("quick", "thorough")),
+    # zones the server signs itself: foreign DNSKEY by update, <apex ANY ANY>, restart (no continuation, see run())
+    ("jsgn", "{ZS}", "{S10}", "<<JSg1, JSg2, JSg2>>", 3, ("quick", "thorough")),
+    # the LockHeld fault on the last message of the history
+    ("jlock", "{ZS}", "{S10}", "<<JMsgs3 \\cup JRej, JMsgs1 \\cup JMsgs3>>", 2, ("quick", "thorough")),
     # long journals (more than 64 / 128 rows): padded zone, rows of kind add / delete / SOA / dump swept over row 65 (130)
     ("jlong", "{ZPad(p) : p \\in {58, 59, 60, 62}}", "{S10}", "<<{JLong1}, {JLong2}, {JLong3}>>", 3, ("quick",)),
     ("jlongfull", "{ZPad(p) : p \\in (53..64) \\cup (118..126)}", "{S10}", "<<{JLong1}, {JLong2}, {JLong3}>>", 3, ("thorough",)),
     # the serial wraps inside the history (2^32 - 3 at the start)
     ("jwrap", "{ZS}", "{<<65535, 65533>>}", "<<JMsgs3 \\cup JRej, JMsgs3 \\cup JSoa2, JMsgs3, JMsgs3>>", 4, ("quick", "thorough")),
 ]
+SIGNED = {"jsgn": "{TRUE}"}
 EXTRA_DEFS = {"JSoa2": '{[pre |-> <<>>, upd |-> <<RR(NA, "IN", "A", 300, 2)>>]}'}
 
 AS_IS = [("MC_Journal_AsIsMsg", "rows of one message committed one by one"),
@@ -78,6 +85,8 @@ def classify(d):
 def _mc(wd):
     st = vlib.mc(os.path.join(vlib.SPEC, "MC_Journal.tla"), os.path.join(vlib.SPEC, "MC_Journal.cfg"), wd, workers=4,
                  timeout=900, allow_zero=("DumpRow", "LogRow", "SoaRow"))
+    if st.get("coverage", {}).get("LockHeld", 0) == 0:
+        raise vlib.ToolError("MC_Journal: the LockHeld fault action was never taken")
     asis = {}
     for cfg, what in AS_IS:
         rc, out = vlib.tlc(os.path.join(vlib.SPEC, "MC_Journal.tla"), os.path.join(vlib.SPEC, cfg + ".cfg"), wd, workers=2,
@@ -112,11 +121,18 @@ def run(res, tier, seed):
         def one(g):
             name, zones, sers, msgsat, n = g[0], g[1], g[2], g[3], g[4]
             defs = dict(EXTRA_DEFS)
-            defs.update({"P_Zones": zones, "P_Sers": sers, "P_MsgsAt": msgsat, "P_SimPre": "{}", "P_SimUpd": "{}", "P_Signeds": "{FALSE}"})
+            defs.update({"P_Zones": zones, "P_Sers": sers, "P_MsgsAt": msgsat, "P_SimPre": "{}", "P_SimUpd": "{}", "P_Signeds": SIGNED.get(name, "{FALSE}")})
             tla, cfg = vlib.wrapper(wd, "G_" + name, "Gen_Journal", defs, [ln.format(n=n) for ln in GEN_CFG])
             cases, st = vlib.gen(tla, cfg, wd, workers=1, timeout=1500)
             for i, c in enumerate(cases):
                 c["id"] = f"{name}-{i}"
+                if name == "jsgn":
+                    # signed zones: the recovered zone is compared at every stop, but the history is not
+                    # continued on it -- HEAD keeps every apex DNSKEY on <apex ANY ANY> in a signed zone (fix
+                    # 0e6d270), which the sign-agnostic Update rule would report for every re-sent message
+                    c["cont"] = 0
+                if name == "jlock":
+                    c["msgs"][-1]["lock"] = True      # fault injection by the environment, no oracle
                 if name.startswith("jlong"):
                     c["cut_tail"] = 8      # stops from 8 rows before the end of the dump on (driver control, no oracle)
             if not cases:
